@@ -3,32 +3,32 @@
 import json, sys, subprocess
 
 CLAIMED = {
- "C01": ("CP1 CP3 CP6 CP9 CP10 CP12", "edge-dominance + exhaustive CFG path search + backward slicing over go/ssa (run loop cache events)",
-         "structural necessary conditions on every path of the run loop: skip only under digest equality with the loaded cache entry of the same task; no path from a successful run leaves a stale digest on disk; every declared file input reaches the hasher; glob expansion precedes the loop",
+ "C01": ("CP1 CP3 CP6 CP9 CP10 CP12 TK2", "edge-dominance + exhaustive CFG path search + backward slicing over go/ssa (run loop cache events)",
+         "structural necessary conditions on every path of the run loop: skip only under digest equality with the loaded cache entry of the same task; no path from a successful run leaves a stale digest on disk; every declared file input reaches the hasher (and every string dependency of the syntax tree reaches one of the two input fields); the old digest is never re-instated after a success; the cache persists exactly its own map; glob expansion precedes the loop",
          "not covered: change-sensitivity of the digest (C04), correctness of glob expansion (C05), races between hashing and running. Trusted: go/ssa + VTA of x/tools v0.29.0, encoding/json and os.WriteFile contracts, the effect-based recognition of the cache API"),
  "C02": ("CP2 CP3L CP5 CP11 AB1", "control-dependence + backward slice non-interference analysis and must-pass-through path search over go/ssa",
          "no decision of one loop iteration (run, skip, record, persist) reads loop-carried state of other tasks; every successful run is recorded and persisted on all paths; an empty input list can never be skipped",
          "not covered: that equal inputs give equal digests (C04) and the value-level outcome of the comparison. Same trusted base as C01"),
- "C03": ("GR1-GR8 ST7", "call-graph cycle / work-list detection, argument slicing, edge-dominance and per-iteration path enumeration over go/ssa",
-         "dependency discovery has feedback (recursion or work list); AddEdge goes dependency -> dependent; every use of the Sort result is dominated by len(order)==graph.Order() with an erroring mismatch; undefined and duplicate names end in errors; the run loop visits the unmodified order front to back with exactly one run/skip event and one result per iteration",
+ "C03": ("GR1-GR8 ST7 TK1", "call-graph cycle / work-list detection, argument slicing, edge-dominance and per-iteration path enumeration over go/ssa",
+         "dependency discovery has feedback (recursion or work list); AddEdge goes dependency -> dependent; every use of the Sort result is dominated by len(order)==graph.Order() with an erroring mismatch; undefined and duplicate names end in errors; every identifier dependency of the syntax tree reaches Task.TaskDependencies unconditionally; the whole request list is handed to one Run call; the run loop visits the unmodified order (no re-ordering through any alias) front to back with exactly one run/skip event and one result per iteration",
          "not covered: correctness of Kahn's algorithm inside collections/dag (its contract, incl. the silent truncation on cycles, is read from the module cache and trusted)"),
- "C04": ("HS1-HS4", "goroutine-topology recovery (alias propagation through closures/parameters), dominance of the sort over every consumer, origin tracing, path enumeration and interval evaluation over go/ssa",
-         "the only arrival-ordered slice reaching the digest is sorted with a whole-element comparator before use; each item is sha256 of the whole file opened on the job path plus that unchanged path; one item per non-directory job; at least one worker for a non-empty list",
+ "C04": ("HS1-HS5", "goroutine-topology recovery (alias propagation through closures/parameters), dominance of the sort over every consumer, origin tracing, path enumeration and interval evaluation over go/ssa",
+         "the only arrival-ordered slice reaching the digest is sorted with a whole-element comparator before use; each item is sha256 of the whole file opened on the job path plus that unchanged path; items are never folded arithmetically; one item per non-directory job; every element of the list becomes a job; at least one worker for a non-empty list",
          "not covered: injectivity of hash||path framing, SHA-256 collisions, duplicate paths (value-level)"),
  "C05": ("GL1-GL4", "edge-dominance and path enumeration in the GlobWalk callback + interprocedural slicing of fsys/pattern/keys over go/ssa",
-         "SkipDir only under IsDir() of the entry (doublestar contract); exactly one append per non-hidden nil return; walked FS is os.DirFS(SpokFile.Dir), pattern unchanged, Globs keyed by the expanded pattern; nothing but loop/err/already-expanded(miss, non-empty hit) guards the expansion",
+         "the GlobWalk callback never returns SkipDir/SkipAll; exactly one append per non-hidden nil return; walked FS is os.DirFS(SpokFile.Dir), pattern unchanged, Globs keyed by the expanded pattern; nothing but loop/err/already-expanded(miss, non-empty hit) guards the expansion",
          "not covered: the doublestar matcher, the exact hidden-name predicate, symlinks"),
  "C08": ("PR1 PR2 PR3 LX1 LX2", "typed-syntax-tree object identity checks + lexer state-function graph reachability + loop progress path search",
          "every ERROR arm reports the tested token's own Value; every illegalToken quotes the line of the token it cites; the scan ends only via an ERROR token or emit(EOF); a task body cannot reach EOF without RBRACE or error; every parser token loop advances and leaves on ERROR. Decides these clauses only, not totality/no-panic over all byte strings",
          "not covered: absence of panics and cursor arithmetic over all inputs (declined, value-level); line numbers within range"),
- "C09": ("SH1 RT1 RT2 RT3 RT4 CP8", "error-flow discipline check (non-nil edge must end in non-nil error returns) along the whole call chain + loop/guard shape analysis over go/ssa",
+ "C09": ("SH1 RT1 RT2 RT3 RT4 GR6 CP8", "error-flow discipline check (non-nil edge must end in non-nil error returns) along the whole call chain + loop/guard shape analysis over go/ssa",
          "the interpreter's exit status reaches Result.Status or the returned error; Ok() methods are Status==0 / conjunctions; every caller of SpokFile.Run examines every result unconditionally and fails on the first not-Ok; errors propagate on every call edge to Runner.Run; main reports on real stderr and exits non-zero; digests recorded only under Ok()",
          "not covered: exit-status computation inside mvdan.cc/sh; flag validation inside the CLI library"),
  "C10": ("CP4 CP7 CP8 CP12", "ordering (must-precede) analysis on the intra-iteration CFG + error-edge discipline check over go/ssa",
          "crash points are covered by ordering constraints that hold on every CFG path: the recorded digest is invalidated and persisted before the commands start, a new digest is recorded only under Ok() of those commands, and a cache file that cannot be read/decoded always ends in an error",
          "not covered: atomicity of os.WriteFile beyond 'a torn JSON document does not decode' (encoding/json contract), kill during first-time cache.Init"),
- "C12": ("CL1-CL4 CL6", "effect inventory with interprocedural entry conditions (greatest fixpoint) + provenance slicing of every removal argument + containment-guard search over go/ssa",
-         "every os.Remove/RemoveAll is under Clean==true and HasTask(clean)==false; removed paths derive only from output fields / their Vars and Globs indirections / SpokFile.Dir+cache constant; every output kind reaches the removal; a test relating each path to SpokFile.Dir with an erroring side precedes any removal",
+ "C12": ("CL1-CL4 CL6 TK3 GL2", "effect inventory with interprocedural entry conditions (greatest fixpoint) + provenance slicing of every removal argument + containment-guard search over go/ssa",
+         "every os.Remove/RemoveAll is under Clean==true and HasTask(clean)==false; removed paths derive only from output fields / their Vars and Globs indirections / SpokFile.Dir+cache constant; every output kind reaches the removal; every output of the syntax tree reaches one of the three output fields; glob expansion records every non-hidden match (directories included); a separator-safe test relating each path to SpokFile.Dir with an erroring side precedes any removal",
          "not covered: correctness of the containment predicate for every path string; directories matched by output globs"),
  "C13": ("EN1-EN6", "data-flow chain verification by backward slicing with object flow (templates, buffers) over go/ssa",
          "os.Environ() precedes the spokfile variables in the list given to expand.ListEnviron (last duplicate wins); the Vars -> KEY=VALUE -> Task.Run -> Runner.Run -> interp.Env chain is unbroken; Task.Commands is text/template output over the AST command text with the variables map; variables are filed under their identifier and builtin errors propagate",
@@ -42,14 +42,14 @@ CLAIMED = {
  "C17": ("FD1 FD3 FD4 FD5 FD6", "loop exit-test classification by backward slicing (directory-dependent, content-independent, dominates the back edge) over go/ssa",
          "the upward walk has a content-independent exit test on every iteration and one that fires at the root; no negative answer from inside the entries loop; the hit is guarded by Name()==NAME and !IsDir() of the same entry; the stop comparison is on the listed directory after its entries were read; the CLI passes cwd/home",
          "not covered: symlinks, permission errors other than being reported; filepath.Dir fixed point at the root is a library fact"),
- "C18": ("CC1-CC9", "concurrency-shape analysis: channel/WaitGroup alias propagation, nil-dereference-after-error check, send-on-all-paths search, close/Wait ordering, drain-loop exits, shared-memory ownership, interval bound",
+ "C18": ("CC1-CC10", "concurrency-shape analysis: channel/WaitGroup alias propagation, nil-dereference-after-error check, send-on-all-paths search, close/Wait ordering, drain-loop exits, shared-memory ownership, interval bound",
          "shape conditions that are sufficient (argument in the evidence) for crash-, deadlock-, leak- and race-freedom of the producer/jobs/workers/results/collector topology under every schedule; any other topology makes the check undecided",
          "trusted: Go memory model for channels/WaitGroup; os.Open/Stat nil-with-error contract. Not covered: panics inside the standard library, a read that blocks forever"),
  "C19": ("FX1 FX2 FX3 FX4 FX6 CL1 CL3 CL4", "effect analysis: frozen effect tables + call-site inventory + interprocedural entry conditions + path-root provenance slicing over go/ssa/VTA",
          "every file-mutating primitive call of the module is either under an explicit action flag or rooted in <SpokFile.Dir>/<cache>; the --fmt write targets Options.Spokfile with Tree.String() after Parse and file.New succeeded; --init is guarded by an existence test of the same path and appends to .gitignore; listing branches reach no mutation; the logger has no file sink",
          "trusted: the effect tables of DESIGN.md appendix B (an unlisted external callee makes the check undecided). Not covered: effects of user commands / exec builtins (excluded by the property)"),
- "C20": ("ST1-ST7 GR6 RT4", "effect inventory of stdout writers with entry conditions + dominance of the stream silencing + buffer/stream pairing by origin tracing + sorted-before-write dominance over go/ssa",
-         "the only direct stdout write prints Results.JSON() under Options.JSON; JSON() marshals the untouched SpokFile.Run result with the expected tags; --quiet/--json install the Null stream before any reader; capture buffers pair with the right stream and result fields; listings collect, sort, then write; default dispatch runs 'default' or lists",
+ "C20": ("ST1-ST8 GR6 RT4", "effect inventory of stdout writers with entry conditions + dominance of the stream silencing + buffer/stream pairing by origin tracing + sorted-before-write dominance over go/ssa",
+         "the only direct stdout write prints Results.JSON() under Options.JSON; JSON() marshals the untouched SpokFile.Run result (no element store, re-ordering or append to a re-slice through any alias) with the expected tags; --quiet/--json install the Null stream before any reader; capture buffers pair with the right stream and result fields; listings collect, sort, then write; default dispatch runs 'default' or lists",
          "not covered: encoding/json rendering, tabwriter layout, docstring text"),
 }
 
@@ -92,7 +92,7 @@ def main():
                   "baseline_off_cmd": "cd /repo && GOFLAGS=-mod=mod GOPROXY=off GOSUMDB=off go test -count=1 ./...",
                   "source_commits": [], "add_only": True},
         "engines": [{"name": "spokcheck", "path": "/verif/checker", "serves_properties": [c["property_id"] for c in checks],
-                     "kind_free_text": "custom static analyses (edge dominance, control dependence, CFG path search, backward slicing, effect/entry-condition analysis) on go/packages + go/ssa + VTA call graph of golang.org/x/tools v0.29.0"}],
+                     "kind_free_text": "custom static analyses (edge dominance, control dependence, light path-sensitive CFG path search, backward slicing, effect/entry-condition analysis) on go/packages + go/ssa + VTA call graph of golang.org/x/tools v0.29.0, run on a canonical form of the module (static helper calls, called closures and deferred calls inlined; freed cells promoted to registers)"}],
         "checks": checks,
         "notes": "Family: static analysis. Every check re-loads and type-checks /repo's working tree on each run; exit 0 = all obligations discharged, exit 1 + VIOLATION line = an obligation violated at a named construct, exit 2 = the checker cannot decide (anchor lost / undecided). Known findings: /verif/known_findings.json (12 fixed, none open). The thorough tier adds GOOS linux/darwin/windows and a self-test of the checker against /verif/seeded (must be reported) and /verif/neutral (must stay silent) on scratch copies.",
         "not_applicable": na,
